@@ -169,3 +169,20 @@ for x in M:
                     "            except LexerError:\n                pass\n"
                     "        except StopIteration:\n            pass\n\n        return\n\n    def parse_assignment_statement")
         x["note"] = "re-enables the peek after END that issue 104 removed"
+
+# ---- added after the reach report (lines no workload had driven before) ------------
+m("enc-odl-offset-seconds-truncated", ["C14"], "pvl/encoder.py",
+  "            if s != datetime.timedelta():", "            if False:")
+m("enc-pds-plain-dict-conversion-replaces-wrong-key", ["C13"], "pvl/encoder.py",
+  "        else:\n            module[key] = new\n",
+  "        else:\n            module[key] = new\n            module[key + \"_converted\"] = True\n")
+m("enc-odl-empty-sequence-allowed", ["C12"], "pvl/encoder.py",
+  "        if len(value) == 0:\n            raise ValueError(\"ODL does not allow empty Sequences.\")",
+  "        if len(value) == 1:\n            raise ValueError(\"ODL does not allow empty Sequences.\")")
+m("enc-pds-set-restriction-dropped", ["C12"], "pvl/encoder.py",
+  "            if not self.is_symbol(v) and not isinstance(v, int):", "            if False:")
+m("enc-odl-set-scalar-restriction-dropped", ["C12"], "pvl/encoder.py",
+  "        if not all(map(self.is_scalar, values)):", "        if False:")
+m("enc-pds-default-symbol-double-quoted", ["C12"], "pvl/encoder.py",
+  "        symbol_single_quote=True,\n        time_trailing_z=True,\n    ):",
+  "        symbol_single_quote=False,\n        time_trailing_z=True,\n    ):")
